@@ -79,13 +79,13 @@ def slug(s):
 def obligation_id(unit, e):
     return "%s::%s::%s[%s]" % (unit, e["owner"], slug(e["msg"])[:48], e["site"])
 
-def run_unit(unit, strict=True, rlimit=None, tag="", text_override=None, threads=None, extra_args=None, pid=None):
+def run_unit(unit, strict=True, rlimit=None, tag="", text_override=None, threads=None, extra_args=None, pid=None, pinned=None):
     """Run the unit; if the Verus/rustc front end rejects the woven file and some function's source
     differs from the pinned skeleton, retry once with that function's inner annotations dropped
     (contract only): a changed function whose proof script no longer fits is then decided by its
     contract alone (it verifies or it fails an obligation), instead of ending as a tooling error."""
-    r = _run_once(unit, strict, rlimit, tag, text_override, threads, extra_args, pid, (), ())
-    if text_override is not None:
+    r = _run_once(unit, strict, rlimit, tag, text_override, threads, extra_args, pid, (), (), pinned)
+    if text_override is not None or pinned is not None:
         return r
     extras = []; degrade = set()
     for attempt in range(3):
@@ -111,11 +111,11 @@ def _missing_items(stderr):
         if (m.group(2), m.group(1)) not in out: out.append((m.group(2), m.group(1)))
     return out
 
-def _run_once(unit, strict, rlimit, tag, text_override, threads, extra_args, pid, degrade, extras=()):
+def _run_once(unit, strict, rlimit, tag, text_override, threads, extra_args, pid, degrade, extras=(), pinned=None):
     t0 = time.time()
     res = UnitResult(unit)
     try:
-        built = U.build(unit, strict=strict, pid=pid, degrade=degrade, extras=extras)
+        built = U.build(unit, strict=strict, pid=pid, degrade=degrade, extras=extras, pinned=pinned)
     except U.LostAnchor as ex:
         res.status = "tool"; res.tool_errors.append(str(ex)); res.wall = time.time() - t0; return res
     except Exception as ex:
